@@ -105,7 +105,9 @@ func plan(thorough bool) []History {
 									continue
 								case f.coins == 2 && mid != "":
 									continue
-								case rescan && mid != "" && end != "":
+								case rescan && mid != "" && end != "" && !(f.coins == 1 && e1 == "send" && e2 == "send" && !cf):
+									// (kept: two rescans with no block in between, so that the second
+									// resynchronisation ends at the height of the first)
 									continue
 								case e1 == "publish" && cf && mid != "":
 									continue
